@@ -167,13 +167,19 @@ func pickExprDoc(r *gen.Rng) (exprs []string, doc DocSpec, src string) {
 		for i := 0; i < n; i++ {
 			exprs = append(exprs, gen.Expr(r))
 		}
-		return exprs, DocSpec{Kind: "json", Text: gen.Doc(r), CapSeed: r.Next() | 1}, "random"
+		if r.Chance(1, 25) {
+			exprs[0] = gen.DeepValid(r)
+		}
+		if r.Chance(1, 10) {
+			exprs = append(exprs, r.Pick([]string{"nums == nums", "objs == objs", "o1 == o2", "nums == `[3,1,2]`", "objs[?k == `1`]", "objs[?t == `[]`]", "mixed[?k != `1`]", "nested[?@ == `[3]`]", "[nums, objs] == [nums, objs]", "o1.b.c != nums"}))
+		}
+		return exprs, DocSpec{Kind: "json", Text: gen.Doc(r), CapSeed: r.Next() | 1, GoNums: goNumSeed(r)}, "random"
 	case x < 70:
 		n := 1 + r.Intn(3)
 		for i := 0; i < n; i++ {
 			exprs = append(exprs, systematic[r.Intn(len(systematic))])
 		}
-		return exprs, DocSpec{Kind: "json", Text: gen.Doc(r), CapSeed: r.Next() | 1}, "systematic-random"
+		return exprs, DocSpec{Kind: "json", Text: gen.Doc(r), CapSeed: r.Next() | 1, GoNums: goNumSeed(r)}, "systematic-random"
 	case x < 90:
 		c := corpus[r.Intn(len(corpus))]
 		exprs = append(exprs, c.Expr)
@@ -181,7 +187,7 @@ func pickExprDoc(r *gen.Rng) (exprs []string, doc DocSpec, src string) {
 		for i := r.Intn(3); i > 0; i-- {
 			exprs = append(exprs, corpus[same[r.Intn(len(same))]].Expr)
 		}
-		return exprs, DocSpec{Kind: "json", Text: c.Doc, CapSeed: r.Next() | 1}, "compliance"
+		return exprs, DocSpec{Kind: "json", Text: c.Doc, CapSeed: r.Next() | 1, GoNums: goNumSeed(r)}, "compliance"
 	default:
 		n := 1 + r.Intn(3)
 		for i := 0; i < n; i++ {
@@ -197,6 +203,14 @@ func typedSeed(r *gen.Rng) uint64 {
 		return 1
 	}
 	return r.Next() | 2
+}
+
+// goNumSeed: one document in twelve is "hand built" (Go ints, json.Number leaves).
+func goNumSeed(r *gen.Rng) uint64 {
+	if r.Chance(1, 12) {
+		return r.Next() | 1
+	}
+	return 0
 }
 
 func opKind(r *gen.Rng, expr string) string {
@@ -398,6 +412,10 @@ func genC12(master uint64, idx int) *Workload {
 		if r.Chance(1, 4) {
 			n = 10 + r.Intn(20) // small caches
 		}
+		huge := r.Chance(1, 14)
+		if huge {
+			n = []int{140, 270, 530, 1040, 1100}[r.Intn(5)] // past 128 / 256 / 512 / 1024 entries
+		}
 		for i := 0; len(w.Exprs) < n; i++ {
 			switch r.Intn(5) {
 			case 0:
@@ -415,12 +433,20 @@ func genC12(master uint64, idx int) *Workload {
 		nc = 3 + r.Intn(2)
 		for c := 0; c < nc; c++ {
 			var ops []Op
-			for o := 24 + r.Intn(24); o > 0; o-- {
+			nops := 24 + r.Intn(24)
+			if huge {
+				nops = n/nc + n/8 + 20
+			}
+			for o := nops; o > 0; o-- {
 				k := "oneshot"
 				if r.Chance(1, 8) {
 					k = "compile_search"
 				}
-				ops = append(ops, Op{Kind: k, Expr: r.Intn(len(w.Exprs)), Doc: 0})
+				ei := r.Intn(len(w.Exprs))
+				if huge && r.Chance(3, 4) {
+					ei = (c*nops + o*7) % len(w.Exprs) // sweep through all of them
+				}
+				ops = append(ops, Op{Kind: k, Expr: ei, Doc: 0})
 			}
 			w.Clients = append(w.Clients, ops)
 		}
